@@ -1348,7 +1348,7 @@ def main():
     if "partial-units-dict-raises" not in skip:
         run.require("partial_units_checks")
     thorough = tier() == "thorough"
-    n_cases = 3400 if thorough else 150
+    n_cases = 3400 if thorough else 400
     scratch = tempfile.mkdtemp(prefix="c12-", dir=_scratch_root())
     try:
         cases = [{"seed": seed(), "idx": i, "engine": i % 4 == 0, "tier": tier(), "scratch": scratch} for i in range(n_cases)]
